@@ -11,7 +11,7 @@ VERB_LINES = ['indented code', ' more indented', 'x = 1;', '. dot first', '.', '
 STATEMENTS = ['2001 Foo Bar', '2001-2003, 2005 Foo <f@x.org>', 'Foo Bar', '(C) 2001 X', '2001, Foo', '1999', '2001-2003 a b c d', 'Copyright Holder Inc.', '2001/2002 X',
               'Copyright (c) 2004-2006 Joe Bloggs', '(C) Copyright IBM Corp. 2001', 'copyright 2001 x', '\u00a9 2019 Y', 'Copyright: 2001 Z',
               '\uff12\uff10\uff11\uff18 \u5c71\u7530\u592a\u90ce', '\u0662\u0660\u0660\u0661 x', '2018\u20102019 X', '\u00b2 squared', '2001\uff0d2003 Y', '\u0967\u096f\u096f\u096f']
-PATTERNS = ['*', 'src/*', 'debian/*', 'a.c', 'doc/*.txt', 'x?y']
+PATTERNS = ['*', 'src/*', 'debian/*', 'a.c', 'doc/*.txt', 'x?y', 'data/table,v', 'vendor/a,b.min.js', 'win32\\', 'a\\*b', ',']
 NAMES = ['GPL-2+', 'MIT', 'Apache-2.0', 'GPL-2+ with OpenSSL exception', 'public-domain', 'BSD-3-clause or GPL-2', 'GPL-2+   with   OpenSSL exception', 'GPL-2+  or  MIT', 'MIT ,', 'a\tb']
 FORMATS = ['https://www.debian.org/doc/packaging-manuals/copyright-format/1.0/', 'http://www.debian.org/doc/packaging-manuals/copyright-format/1.0/']
 EXTRA_LABELS = ['X-Foo', 'Origin', 'Bug-Debian', 'note', 'X-Debian--Note', 'Trailing-', 'a--b-', 'X-SHA1-sum', 'md5sum']
